@@ -46,6 +46,15 @@ def adversarial_models():
             c['members'] = ['a', 'b']
         out.append(('permissive', {'classes': catalog.BASE + [other, c], 'root': ('cls', 'Pe')}))
         out.append(('permissive', {'classes': catalog.BASE + [other, c], 'root': ('list', ('union', ['int', ('cls', 'Pe')]))}))
+    # a user class that happens to be called Path, next to positions declared pathlib.Path
+    for kind in ('strsub', 'userstring', 'ystring', 'plain'):
+        up = {'name': 'Up', 'kind': kind, 'pyname': 'Path'}
+        if kind == 'plain':
+            up = {'name': 'Up', 'params': [('x', 'int')], 'pyname': 'Path'}
+        out.append(('named-path', {'classes': catalog.BASE + [other, up], 'root': ('list', 'path')}))
+        out.append(('named-path', {'classes': catalog.BASE + [other, up, {'name': 'K', 'params': [('p', 'path'), ('u', ('cls', 'Up'), None)]}],
+                                   'root': ('cls', 'K')}))
+        out.append(('named-path', {'classes': catalog.BASE + [other, up], 'root': ('dict', 'str', ('union', ['path', 'int']))}))
     for op in REWRITES:
         k = {'name': 'K', 'params': [('x', 'int'), ('y', 'any', None)], 'hooks': {'savorize': [op]}}
         out.append(('rewrite', {'classes': catalog.BASE + [other, k], 'root': ('cls', 'K')}))
